@@ -789,6 +789,34 @@ pub fn ladder_unit(unit: u64, ctx: &mut Ctx, ctl: &mut UnitCtl) {
         }
     }
     if unit == 13 {
+        // shapes without any point (legal: zero points, zero parts) whose stored box is all NaN
+        // (writers that did not compute it), with consistent lengths
+        for ty in [8, 18, 28, 3, 13, 23, 5, 15, 25, 31] {
+            for m in [true, false] {
+                let content = content_size(ty, 0, 0, m) as u64;
+                let mut shp = hdr(ty, clamp_words(100 + 8 + content));
+                shp.extend_from_slice(&1i32.to_be_bytes());
+                shp.extend_from_slice(&clamp_words(content).to_be_bytes());
+                shp.extend_from_slice(&ty.to_le_bytes());
+                for _ in 0..4 {
+                    shp.extend_from_slice(&f64::NAN.to_le_bytes());
+                }
+                let rest = 100 + 8 + content as usize - shp.len();
+                // counts (zero) and, for Z / M types, ranges of NaN
+                let mut tail = vec![0u8; rest];
+                let counts = if is_multipoint(ty) { 4 } else { 8 };
+                for chunk in tail[counts.min(rest)..].chunks_exact_mut(8) {
+                    chunk.copy_from_slice(&f64::NAN.to_le_bytes());
+                }
+                shp.extend_from_slice(&tail);
+                let mut shx = hdr(ty, 54);
+                shx.extend_from_slice(&50i32.to_be_bytes());
+                shx.extend_from_slice(&clamp_words(content).to_be_bytes());
+                inputs.push((format!("{} without any point, box and ranges all NaN (m={})", type_name(ty), m), shp, shx));
+            }
+        }
+    }
+    if unit == 13 {
         // a small valid data set next to a .dbf whose header declares rows that are not there
         let mut shp = hdr(1, 64);
         shp.extend_from_slice(&1i32.to_be_bytes());
